@@ -452,7 +452,18 @@ def check(prop, tier, seed):
             if kf:
                 known_lines.append("KNOWN-FINDING: property=%s %s" % (prop, kf[0]["what"]))
                 continue
-            path = write_replay(prop, seed, [op], [il], ["(model-free oracle)"],
+            # the definitions the op may refer to: the definition lines since the last reset (not shrunk)
+            if all_lines is None:
+                all_lines = open(os.path.join(scratch, "ops.txt")).read().splitlines()
+            prefix = [l for l in all_lines[:n] if cfg.is_def(l.split())]
+            for i in range(len(prefix) - 1, -1, -1):
+                if prefix[i].strip() == "reset":
+                    prefix = prefix[i + 1:]
+                    break
+            used = set(op.split())
+            prefix = [l for l in prefix if l.split()[0] == "defname" or (len(l.split()) > 1 and (l.split()[1] in used or "H" + l.split()[1] in used))]
+            path = write_replay(prop, seed, prefix + [op], [""] * len(prefix) + [il],
+                                ["(definition)"] * len(prefix) + ["(model-free oracle)"],
                                 ["implementation output rejected by the model-free oracle: %s" % why])
             violations.append((path, ""))
         if failed_ths:
@@ -523,11 +534,18 @@ def replay(path):
         for i, op in enumerate(lines):
             a = il[i] if i < len(il) else "<no answer>"
             b = ml[i] if i < len(ml) else "<no answer>"
-            same = compare_lines(a, b, cfg.mode_for(op.split()) if cfg else "exact",
-                                 cfg.rtol if cfg else 1e-9, cfg.atol_rel if cfg else 1e-12)
-            if not same or i == len(lines) - 1:
+            same = None
+            if cfg and cfg.compare_op:
+                same = cfg.compare_op(op.split(), a, b)
+            if same is None:
+                same = compare_lines(a, b, cfg.mode_for(op.split()) if cfg else "exact",
+                                     cfg.rtol if cfg else 1e-9, cfg.atol_rel if cfg else 1e-12)
+            why = cfg.oracle(op.split(), a) if (cfg and cfg.oracle and op.split()) else None
+            if not same or why or i == len(lines) - 1:
                 print("op:    %s\nimpl:  %s\nmodel: %s\n%s" % (op[:300], a[:300], b[:300], "AGREE" if same else "DIFFER"))
-            if not same:
+                if why:
+                    print("model-free oracle rejects the implementation's answer: %s" % why)
+            if not same or why:
                 bad += 1
         if bad:
             print("VIOLATION property=%s replay=%s" % (prop, path))
